@@ -1341,6 +1341,7 @@ impl<'bump, T: 'bump> Vec<'bump, T> {
             del: 0,
             old_len,
             pred: filter,
+            panic_flag: false,
         }
     }
 
@@ -2702,6 +2703,10 @@ where
     del: usize,
     old_len: usize,
     pred: F,
+    /// Set while the predicate runs, so it stays set if the predicate panics.
+    /// The destructor then stops testing (and dropping) further elements and
+    /// only moves the unprocessed ones back into place.
+    panic_flag: bool,
 }
 
 impl<'a, 'bump, T, F> Iterator for DrainFilter<'a, 'bump, T, F>
@@ -2714,9 +2719,15 @@ where
         unsafe {
             while self.idx != self.old_len {
                 let i = self.idx;
-                self.idx += 1;
                 let v = slice::from_raw_parts_mut(self.vec.as_mut_ptr(), self.old_len);
-                if (self.pred)(&mut v[i]) {
+                self.panic_flag = true;
+                let drained = (self.pred)(&mut v[i]);
+                self.panic_flag = false;
+                // Update the index *after* the predicate is called. If the index
+                // is updated prior and the predicate panics, the element at this
+                // index would be skipped by the destructor's backshift.
+                self.idx += 1;
+                if drained {
                     self.del += 1;
                     return Some(ptr::read(&v[i]));
                 } else if self.del > 0 {
@@ -2743,9 +2754,42 @@ where
     F: FnMut(&mut T) -> bool,
 {
     fn drop(&mut self) {
-        self.for_each(drop);
-        unsafe {
-            self.vec.set_len(self.old_len - self.del);
+        struct BackshiftOnDrop<'a, 'b, 'bump, T, F>
+        where
+            F: FnMut(&mut T) -> bool,
+        {
+            drain: &'b mut DrainFilter<'a, 'bump, T, F>,
+        }
+
+        impl<'a, 'b, 'bump, T, F> Drop for BackshiftOnDrop<'a, 'b, 'bump, T, F>
+        where
+            F: FnMut(&mut T) -> bool,
+        {
+            fn drop(&mut self) {
+                unsafe {
+                    if self.drain.idx < self.drain.old_len && self.drain.del > 0 {
+                        // The predicate panicked (here or in a caller's `next`):
+                        // we do not run it again. Move the unprocessed elements
+                        // down over the holes left by the drained ones, so that no
+                        // stale copy of an already moved element stays inside `len`.
+                        let ptr = self.drain.vec.as_mut_ptr();
+                        let src = ptr.add(self.drain.idx);
+                        let dst = src.sub(self.drain.del);
+                        let tail_len = self.drain.old_len - self.drain.idx;
+                        ptr::copy(src, dst, tail_len);
+                    }
+                    self.drain.vec.set_len(self.drain.old_len - self.drain.del);
+                }
+            }
+        }
+
+        let backshift = BackshiftOnDrop { drain: self };
+
+        // Consume the remaining elements unless the predicate has already
+        // panicked; the unprocessed elements are moved back into place whether
+        // that happened before or happens during this consumption.
+        if !backshift.drain.panic_flag {
+            backshift.drain.for_each(drop);
         }
     }
 }
